@@ -25,7 +25,7 @@ CHECKS = {
          "Seeded exploration of (L, read history, target size around L / huge claimed lengths / compressed targets whose wire size is around L, crossing frame, controls, chunking); within-limit messages must be readable whatever the history, over-limit ones refused before the crossing frame's payload with ErrReadLimit + 1009; allocation must not grow with the claimed length; the limit may have been absent or larger earlier on the connection or be re-set (same value) between messages and between Reads; a refused reader delivers nothing on retry.",
          "limit counted in wire payload bytes; runtime.MemStats.TotalAlloc as allocation counter", "3/C06"),
  "C08": ("exploration", "runtime monitoring: handler/data event log with one counter vs. wire order of an independently encoded stream; decoded pong/close echoes; complete enumeration of acceptable close codes",
-         "All 2009 acceptable close codes x reason lengths x roles are enumerated; seeded streams put control frames at every kind of position; a concurrent family checks pong payloads while other goroutines use WriteControl; a third of the client-role executions build the connection with the real Dialer.Dial with the stream glued behind the 101 reply; a fifth run under a read limit every message meets exactly; handler calls must match the wire exactly once, in order, correctly placed relative to delivered bytes; echoes decoded from the write log; handler errors permanent.",
+         "All 2009 acceptable close codes x reason lengths x roles are enumerated; seeded streams put control frames at every kind of position; a concurrent family checks pong payloads while other goroutines use WriteControl; a third of the client-role executions build the connection with the real Dialer.Dial with the stream glued behind the 101 reply; a fifth run under a read limit every message meets exactly; read through NextReader, ReadMessage or JoinMessages; one stream in 25 carries a run of 100-1500 control frames; handler calls must match the wire exactly once, in order, correctly placed relative to delivered bytes; echoes decoded from the write log; handler errors permanent.",
          "single-goroutine executions so best-effort echoes are deterministic", "3/C08"),
  "C17": ("exploration", "runtime monitoring: every split of a frame stream across the handshake boundary through the real Upgrader.Upgrade (fake Hijacker) and Dialer.Dial (scripted conn)",
          "For each generated stream every split between hijacked buffer and socket x 6 hijacked reader sizes x 6 ReadBufferSizes (server) and every cut of '101 + frames' (client) is executed; the messages read must equal the messages encoded.",
@@ -55,10 +55,10 @@ CHECKS = {
          "All four EnableCompression pairs are connected and generated toggle/level/message sequences (WriteMessage, closed writers, writers left to the implicit close, toggles with a writer open) cross in both directions; announcement only if offered and enabled; compression in use iff the 101 carried both no_context_takeover parameters; endpoints agree (probed with single-frame and fragmented compressed messages incl. empty fragments; the offer may also come from the application's request header).",
          "behavioural probes instead of field inspection", "3/C15"),
  "C16": ("fault_enumeration", "runtime monitoring with fault injection at every transport operation index x {error, timeout, EOF} during Dial (direct, CONNECT proxy, TLS, TLS through tunnel) and Upgrade; blocking peers under a 50 ms timeout; Close/deadline log of the scripted conn",
-         "Every operation of every configuration is faulted; failure => nil conn, error, transport closed (before hijack: untouched); success => open and no deadline armed; with a timeout configured every I/O operation runs under a deadline no later than it; a silent peer at each phase makes Dial return; dial hooks NetDialContext, NetDial and NetDialTLSContext.",
+         "Every operation of every configuration is faulted; failure => nil conn, error, transport closed (before hijack: untouched); success => open and no deadline armed; with a timeout configured every I/O operation runs under a deadline no later than it; a silent peer at each phase makes Dial return; dial hooks NetDialContext, NetDial and NetDialTLSContext; the caller's context is cancelled at every point of the handshake; a transport that ignores deadlines lets a handshake end after its limit (success must still mean an open connection).",
          "TLS peers in-process over an in-memory pipe; the TLS handshake inside the dial function is judged by the blocking form", "3/C16"),
  "C18": ("exploration", "runtime monitoring: configuration matrix executed against in-process loopback backends, HTTP(S) CONNECT and SOCKS5 proxies that record requests, TLS state and connection provenance, and recording dial hooks",
-         "Thorough enumerates the whole matrix (proxy kind x scheme x 8 hook subsets x credentials x certificate x host form x refusal); both tiers enumerate all cells (thorough three times) incl. Host-header overrides and a second dial after a refusal; both tiers add all cells of the dial paths that take the proxy from the process environment (DefaultDialer, nil *Dialer, Proxy: http.ProxyFromEnvironment x scheme x certificate x port form). Exactly one CONNECT with the right target/authorization, backend only through the proxy, WebSocket request only inside verified TLS for wss, no request to unverified peers, first hop by the applicable hook.",
+         "Thorough enumerates the whole matrix (proxy kind x scheme x 8 hook subsets x credentials x certificate x host form x refusal); both tiers enumerate all cells (thorough three times) incl. Host-header overrides, a second dial after a refusal and untrusted backends visited earlier by a Dialer that trusts them; both tiers add all cells of the dial paths that take the proxy from the process environment (DefaultDialer, nil *Dialer, Proxy: http.ProxyFromEnvironment x scheme x certificate x port form). Exactly one CONNECT with the right target/authorization, backend only through the proxy, WebSocket request only inside verified TLS for wss, no request to unverified peers, first hop by the applicable hook.",
          "loopback TCP; in-process CA (ECDSA P-256)", "3/C18"),
  "C19": ("exploration", "runtime monitoring: one PreparedMessage sent to generated sets of connections (role x negotiated x enabled x level), sequentially and from concurrent goroutines; each write log decoded independently and compared with the original payload and a WriteMessage twin",
          "Seeded exploration of message type/size x connection sets x send/toggle/level/mutation sequences; decoded type, payload and compressed flag must match the settings at the time of the call and a twin WriteMessage; in the concurrent mode every connection also has a WriteControl pinger and a dawdling transport (frames must stay contiguous).",
